@@ -1762,6 +1762,9 @@ func (r *Run) fullCheck(clause string) {
 				r.fail(clause, "a deleted key is readable (full-store check) "+r.bctx(), "404", g.String())
 			}
 		}
+		if r.Plan.Config.RawKeys {
+			continue // keys that are not valid UTF-8 cannot be told apart in an XML listing
+		}
 		x, lresp := r.doList(&Op{B: bn}, nil)
 		if r.refusedByConfig(lresp) {
 			continue
